@@ -121,8 +121,6 @@ structure Encoded (k : EncKind) (af : AF) (s : Nat) (withRange : Bool) (w : Worl
   reserved : ∀ r, k.reserve af.n withRange = some r → r ≤ w.nVarsOf s
   bounded : w.Bounded
 
-theorem Prog.bind_eq {α β : Type} (p : Prog α) (f : α → Prog β) : (p >>= f) = p.bind f := rfl
-theorem Prog.pure_eq {α : Type} (a : α) : (pure a : Prog α) = Prog.pure a := rfl
 
 theorem wp_mkSolver {C : Prop} (w : World) (Q : Nat → World → Prop) :
     wp C mkSolver w Q ↔ Q w.solvers.length w.onNew := Iff.rfl
